@@ -1,1 +1,62 @@
-From DV Require Import Prelude.Base Model.Wire Model.Defs.
+(* C03 — typed command/grouped attributes map 1:1 onto dictionary AVPs and round-trip.
+   General statements for ANY class tables / dictionary; Link/LinkDefs.v checks the tables the
+   library actually defines (exhaustive, regenerated every run). *)
+From DV Require Import Prelude.Base Model.Wire Model.Types Model.Defs Proofs.WireP Proofs.DefsP.
+From Coq Require Import String.
+
+(* in a well-formed class every declared attribute denotes exactly one dictionary AVP (grouped iff
+   it has a container class) and no two attributes share a name or an AVP *)
+Theorem C03_attr_denotes : forall e c d, class_wf e c -> In d (d_defs c) ->
+  (exists r, lookup (e_rows e) (f_code d) (f_vendor d) = Some r /\
+             row_code r = f_code d /\ row_vendor r = f_vendor d /\
+             (row_ty r = TGrouped <-> f_tclass d <> ""%string)) /\
+  (forall d', In d' (d_defs c) ->
+     f_attr d' = f_attr d \/ (f_code d' = f_code d /\ f_vendor d' = f_vendor d) -> d' = d).
+Proof. exact DefsP.C03_attr_denotes. Qed.
+
+(* what is generated: per definition, in definition order, exactly one AVP per set scalar / nested
+   object and one per list element, none for unset attributes, each bearing the definition's code
+   and vendor, V iff vendor <> 0, the effective M flag, P clear; then the undeclared extras unchanged *)
+Theorem C03_gen_shape : forall e cls fields extra c l,
+  cdef_lookup (e_classes e) cls = Some c -> d_has_defs c = true ->
+  gen_obj e (Obj cls fields extra) = Ok l ->
+  exists per : list (list avp),
+    Forall2 (fun d p => List.length p = count_of (assoc (f_attr d) fields) /\ Forall (avp_for e d) p)
+            (d_defs c) per /\
+    l = (List.concat per ++ (if has_extras c then extra else []))%list.
+Proof. exact DefsP.C03_gen_shape. Qed.
+
+(* every shaped object (any subset of attributes set to values of the domain, lists of any length,
+   any nesting depth) can be generated and put on the wire *)
+Theorem C03_gen_total : forall e fuel o, e_time e = rfc_time -> shaped e fuel o -> exists l, gen_obj e o = Ok l.
+Proof. exact DefsP.C03_gen_total. Qed.
+Theorem C03_gen_encodable : forall e fuel o l, e_time e = rfc_time ->
+  shaped e fuel o -> gen_obj e o = Ok l -> Forall wf_avp' l /\ exists bs, enc_avps l = Ok bs.
+Proof. exact DefsP.C03_gen_encodable. Qed.
+
+(* decoding restores every attribute that was set (unset = absent; [] lists identified) *)
+Theorem C03_roundtrip : forall e fuel o l, e_time e = rfc_time ->
+  shaped e fuel o -> gen_obj e o = Ok l ->
+  forall fuel', (fuel <= fuel')%nat ->
+  exists o', assign e fuel' (fresh (e_classes e) (obj_cls o)) l = Ok o' /\ obj_equiv e fuel' o' o.
+Proof. exact DefsP.C03_roundtrip. Qed.
+
+(* encode-decode-encode equals encode *)
+Theorem C03_ede : forall e fuel o l, e_time e = rfc_time ->
+  shaped e fuel o -> gen_obj e o = Ok l ->
+  forall fuel', (fuel <= fuel')%nat ->
+  exists o', assign e fuel' (fresh (e_classes e) (obj_cls o)) l = Ok o' /\ gen_obj e o' = Ok l.
+Proof. exact DefsP.C03_ede. Qed.
+
+(* the only errors generation can produce *)
+Theorem C03_gen_errors : forall e o x, gen_obj e o = Err x ->
+  x = AvpEncodeError \/ x = ValueError \/ x = TypeError \/ x = AttributeError.
+Proof. exact gen_obj_errors. Qed.
+
+Print Assumptions C03_attr_denotes.
+Print Assumptions C03_gen_shape.
+Print Assumptions C03_gen_total.
+Print Assumptions C03_gen_encodable.
+Print Assumptions C03_roundtrip.
+Print Assumptions C03_ede.
+Print Assumptions C03_gen_errors.
